@@ -488,11 +488,14 @@ impl MqttState {
             }
 
             let pkid = publish.pkid;
+            // the id is in use until the final ack: PUBACK, or PUBCOMP for QoS 2 (after PUBREC
+            // the slot in `outgoing_pub` is empty but the release is still pending)
             if self
                 .outgoing_pub
                 .get(publish.pkid as usize)
                 .ok_or(StateError::Unsolicited(publish.pkid))?
                 .is_some()
+                || self.outgoing_rel.contains(pkid as usize)
             {
                 info!("Collision on packet id = {:?}", publish.pkid);
                 self.collision = Some(publish);
